@@ -543,3 +543,11 @@ package base
 //@   ensures[C09] old(exists(i, 0 <= i && i < len(t.variants) && t.variants[i].key == key)) ==> exists(i, 0 <= i && i < len(t.variants) && old(t.variants[i].key) == key && result == unbox(old(t.variants[i].val), "*ti/base.T"))
 //@   ensures[C09] old(forall(i, 0 <= i && i < len(t.variants) ==> t.variants[i].key != key)) ==> fresh(result) && result.tType == NIL
 //@   loop 0 invariant[C09] forall(j, 0 <= j && j <= rangeindex ==> t.variants[j].key != key)
+
+// C24: a call-graph key keeps frame, class and method apart with a separator; two keys are equal
+// only for equal parts when no part contains the separator (names never do: the lexer ends the
+// input at a NUL)
+//@ func ti/base.CallGraphKey
+//@   transparent
+//@   ensures[C24] result == frame + "\x00" + class + "\x00" + method
+//@   ensures[C24] forall(f2, "string", forall(c2, "string", forall(m2, "string", !strings.Contains(frame, "\x00") && !strings.Contains(class, "\x00") && !strings.Contains(f2, "\x00") && !strings.Contains(c2, "\x00") && result == f2 + "\x00" + c2 + "\x00" + m2 ==> f2 == frame && c2 == class && m2 == method)))
